@@ -85,9 +85,13 @@ func backendRaceOps() []raceOp {
 }
 
 func makeBackendInst(kind string, strategy cache.EvictionStrategy) func() *raceInst {
+	return makeBackendInstTTL(kind, strategy, time.Hour)
+}
+
+func makeBackendInstTTL(kind string, strategy cache.EvictionStrategy, cfgTTL time.Duration) func() *raceInst {
 	return func() *raceInst {
 		cfg := cache.Config{
-			TimeToLive: time.Hour, EvictionStrategy: strategy, CountSoftLimit: 6, EvictFraction: 0.3,
+			TimeToLive: cfgTTL, EvictionStrategy: strategy, CountSoftLimit: 6, EvictFraction: 0.3,
 			DeleteExpiredJobInterval: farFuture, DeleteExpiredAfter: time.Hour, ItemsCountReportInterval: farFuture,
 		}
 		be := newBackend(kind, cfg)
@@ -179,6 +183,11 @@ func indexRaceOps() []raceOp {
 	}
 }
 
+// failingDeleter makes every invalidation take the failure path (unprocessed keys are put back).
+type failingDeleter struct{}
+
+func (failingDeleter) Delete(context.Context, []byte) error { return io.ErrClosedPipe }
+
 func makeIndexInst() *raceInst {
 	in := makeBackendInst(kindSharded, cache.EvictMostExpired)()
 	in.idx = cache.NewInvalidationIndex(in.be.Deleter())
@@ -211,6 +220,10 @@ var raceSubjects = func() []raceSubject {
 		}
 	}
 
+	for _, kind := range backendKinds {
+		subs = append(subs, raceSubject{name: kind + "/UnlimitedTTL", make: makeBackendInstTTL(kind, cache.EvictMostExpired, cache.UnlimitedTTL), ops: backendRaceOps()})
+	}
+
 	for v, vn := range variantNames {
 		subs = append(subs, raceSubject{name: vn, make: makeFailoverInst(v, false), ops: failoverRaceOps()})
 	}
@@ -219,6 +232,12 @@ var raceSubjects = func() []raceSubject {
 		subs = append(subs, raceSubject{name: vn + "/SyncRead", make: makeFailoverInst(v, true), ops: failoverRaceOps()})
 	}
 	subs = append(subs, raceSubject{name: "InvalidationIndex", make: makeIndexInst, ops: indexRaceOps()})
+	subs = append(subs, raceSubject{name: "InvalidationIndex/failing-deleter", make: func() *raceInst {
+		in := makeIndexInst()
+		in.idx.AddCache("default", failingDeleter{})
+
+		return in
+	}, ops: indexRaceOps()})
 	subs = append(subs, raceSubject{name: "Invalidator", make: makeInvalidatorInst, ops: invalidatorRaceOps()})
 	subs = append(subs, raceSubject{name: "Invalidator/default-interval", make: func() *raceInst {
 		in := makeInvalidatorInst()
